@@ -11,6 +11,7 @@ import (
 
 	"github.com/ipld/go-storethehash/store/freelist"
 	"github.com/ipld/go-storethehash/store/types"
+	"github.com/ipld/go-storethehash/store/vhook"
 )
 
 type IndexRemapper struct {
@@ -86,6 +87,7 @@ func upgradePrimary(ctx context.Context, filePath, headerPath string, maxFileSiz
 		return 0, ctx.Err()
 	}
 
+	vhook.At("mh.upgrade.start")
 	log.Infow("Upgrading primary storage and splitting into separate files", "newVersion", PrimaryVersion, "fileSize", maxFileSize)
 	if freeList != nil {
 		// Instead of remapping all the primary offsets in the freelist, call
@@ -98,15 +100,18 @@ func upgradePrimary(ctx context.Context, filePath, headerPath string, maxFileSiz
 		}
 	}
 
+	vhook.At("mh.upgrade.after-freelist")
 	fileNum, err := chunkOldPrimary(ctx, filePath, int64(maxFileSize))
 	if err != nil {
 		return 0, fmt.Errorf("error chunking primary: %w", err)
 	}
 
+	vhook.At("mh.upgrade.before-header")
 	if err = writeHeader(headerPath, newHeader(maxFileSize)); err != nil {
 		return 0, fmt.Errorf("error writing primary info file: %w", err)
 	}
 
+	vhook.At("mh.upgrade.before-remove-old")
 	if err = os.Remove(filePath); err != nil {
 		return 0, fmt.Errorf("cannot remove old primary: %w", err)
 	}
@@ -134,6 +139,7 @@ func chunkOldPrimary(ctx context.Context, name string, fileSizeLimit int64) (uin
 	total := fi.Size()
 	var fileNum uint32
 	outName := primaryFileName(name, fileNum)
+	vhook.At("mh.upgrade.chunk.before-create")
 	outFile, err := createFileAppend(outName)
 	if err != nil {
 		return 0, err
@@ -188,6 +194,7 @@ func chunkOldPrimary(ctx context.Context, name string, fileSizeLimit int64) (uin
 
 		written += sizePrefixSize + int64(size)
 		if written >= fileSizeLimit {
+			vhook.At("mh.upgrade.chunk.before-flush")
 			if err = writer.Flush(); err != nil {
 				return 0, err
 			}
@@ -197,6 +204,7 @@ func chunkOldPrimary(ctx context.Context, name string, fileSizeLimit int64) (uin
 			}
 			fileNum++
 			outName = primaryFileName(name, fileNum)
+			vhook.At("mh.upgrade.chunk.before-create-next")
 			outFile, err = createFileAppend(outName)
 			if err != nil {
 				return 0, err
@@ -208,6 +216,7 @@ func chunkOldPrimary(ctx context.Context, name string, fileSizeLimit int64) (uin
 		count++
 	}
 	if written != 0 {
+		vhook.At("mh.upgrade.chunk.before-flush-last")
 		if err = writer.Flush(); err != nil {
 			return 0, err
 		}
@@ -295,6 +304,7 @@ func applyFreeList(ctx context.Context, freeList *freelist.FreeList, filePath st
 			// Mark the record as deleted by setting the highest bit in the
 			// size. This assumes that the record size is < 2^31.
 			binary.LittleEndian.PutUint32(sizeBuf, recSize|deletedBit)
+			vhook.At("mh.applyfree.before-mark")
 			_, err = primaryFile.WriteAt(sizeBuf, int64(offset))
 			if err != nil {
 				return fmt.Errorf("cannot write to primary file %s: %w", flFile.Name(), err)
@@ -313,6 +323,7 @@ func applyFreeList(ctx context.Context, freeList *freelist.FreeList, filePath st
 		flFile.Close()
 	}
 
+	vhook.At("mh.applyfree.before-remove-gc")
 	if err = os.Remove(flPath); err != nil {
 		return fmt.Errorf("error removing freelist: %w", err)
 	}
